@@ -210,7 +210,7 @@ def run(ctx, only_cases=None):
                    by_scope={sc: sum(1 for o in allobs if any(r["sc"] == sc for r in o["refs"]))
                              for sc in ("top", "layout", "macro", "closure", "imported", "rendered", "extending", "pkgvar")})
     # judge: shards in parallel TLC processes
-    nshard = max(1, min(rig.NCPU // 2, len(allobs) // 5000))
+    nshard = max(1, min(rig.NCPU - 4, len(allobs) // 5000))
     size = (len(allobs) + nshard - 1) // nshard if allobs else 1
     drift_every = ctx.pick(4, 16) if only_cases is None else 1
     jobs = []
